@@ -26,6 +26,7 @@ def run(ctx, R, tier):
     once(F, R)
     per_frame_ops(F, R)
     stages_every_path(F, R)
+    every_chunk(F, R)
     order(F, R)
     send(F, R)
     ibs(F, R)
@@ -245,6 +246,14 @@ def once(F, R):
     if R.check(rb is not None, 'B.C02.once', 'anchor:Renderer::process', 'not found'):
         cs = calls_to(rb, 'backend::renderer::Renderer::process_chunk', suffix=False)
         ok = len(cs) == 1 and loop_of(rb, cs[0][0]) is not None and 'chunks_mut' in iter_source(rb, loop_of(rb, cs[0][0]))
+        if not cs:
+            # `chunks_mut(..).for_each(|chunk| self.process_chunk(chunk, n))`: one call in the closure, the closure handed to
+            # for_each of the chunk iterator, outside any loop
+            cl = [c for c in F.closures_of(rb.path) if calls_to(c, 'backend::renderer::Renderer::process_chunk', suffix=False)]
+            fe = [(x, t) for x, t in rb.calls() if (callee_path(t) or '').endswith('Iterator::for_each')]
+            ok = len(cl) == 1 and len(calls_to(cl[0], 'backend::renderer::Renderer::process_chunk', suffix=False)) == 1 \
+                and not cl[0].in_loop(calls_to(cl[0], 'backend::renderer::Renderer::process_chunk', suffix=False)[0][0]) \
+                and len(fe) == 1 and not rb.in_loop(fe[0][0]) and 'chunks_mut' in describe(rb, fe[0][1]['args'][0], depth=5, at=fe[0][0])
         R.check(ok, 'B.C02.once', 'Renderer::process', 'Renderer::process does not call process_chunk once per chunk of chunks_mut',
                 detail='for chunk in out.chunks_mut(..) { process_chunk(chunk) }')
 
@@ -487,6 +496,44 @@ def stages_every_path(F, R, rule='B.C02.flow'):
         R.check(not skipped, rule, key, 'the %s stage of %s::process can be skipped: a path reaches the return at %s without it'
                 % (stage, owner, b.where(skipped[0]) if skipped else ''), detail={'stage': stage, 'sites': len(sites)}, where=b.where(sites[0]))
     R.floor(rule, n, 5)
+
+
+def every_chunk(F, R, rule='B.C02.flow'):
+    """'Every live sound and effect is asked for every output frame exactly once': Renderer::process cuts the device buffer into
+    chunks and renders every one of them - the chunk loop is left only when the iterator is exhausted (no `break`, no early
+    return) and every turn reaches process_chunk (no `continue` in front of it)."""
+    b = F.body('backend::renderer::Renderer::process')
+    if not R.check(b is not None, rule, 'anchor:renderer:every-chunk', 'Renderer::process not found'):
+        return
+    pc = [x for x, t in b.calls() if (callee_path(t) or '').endswith('Renderer::process_chunk')]
+    ok, why = True, ''
+    if pc and b.in_loop(pc[0]):
+        L = max(b.in_loop(pc[0]), key=lambda l: len(l['blocks']))
+        exits = [x for x in L['blocks'] if any(s not in L['blocks'] for s in b.succ(x))]
+        good_exit = []
+        for x in exits:
+            t = b.blocks[x]['term']
+            d = describe(b, t['op'], depth=4, at=x) if t['k'] == 'switch' else ''
+            good_exit.append(t['k'] == 'switch' and d.startswith('discr(') and 'Iterator>::next' in d)
+        if not exits or not all(good_exit):
+            ok, why = False, 'the chunk loop can be left before the device buffer is exhausted'
+        elif not must_pass(b, [s for x in exits for s in b.succ(x) if s in L['blocks']], [L['header']], pc):
+            ok, why = False, 'a turn of the chunk loop can go round without rendering its chunk'
+        elif any(b.blocks[r]['term']['k'] == 'return' and r in L['blocks'] for r in range(b.n)):
+            ok, why = False, 'the chunk loop contains a return'
+    else:
+        # an iterator consumer: `chunks_mut(..).for_each(|chunk| self.process_chunk(chunk, n))`
+        cl = [c for c in F.closures_of(b.path) if any((callee_path(t) or '').endswith('Renderer::process_chunk') for _, t in c.calls())]
+        fe = [x for x, t in b.calls() if (callee_path(t) or '').endswith('Iterator::for_each')]
+        if len(cl) == 1 and fe:
+            c = cl[0]
+            pcc = [x for x, t in c.calls() if (callee_path(t) or '').endswith('Renderer::process_chunk')]
+            if not must_pass(c, [0], c.return_blocks(), pcc):
+                ok, why = False, 'the per-chunk closure can return without rendering its chunk'
+        else:
+            ok, why = False, 'unrecognised-shape: no chunk loop around process_chunk'
+    R.check(ok, rule, 'renderer:every-chunk', 'Renderer::process: %s - the frames of that chunk are never written and nothing advances for them' % why,
+            detail='for chunk in chunks_mut(..) { process_chunk(chunk) }, left by exhaustion only', where=b.file)
 
 
 def per_frame_ops(F, R):
